@@ -65,16 +65,16 @@ def check(F, rep):
     # ---- remove_or_restart_actor
     ro = get_fn(F, rep, RM + "RemoteMap::remove_or_restart_actor")
     rdu = defuse(ro)
-    ie = [(b, t) for b, t in find_calls(ro, regex=r"Vec::is_empty$|slice::is_empty$") if arg_ref_target(ro, t["args"][0]) == 3]
+    ets, ie = emptiness_tests(ro, None, recv=lambda a: arg_ref_target(ro, a) == 3)
     st = find_calls(ro, RM + "Tasks::start_remote_state_actor")
     rem = [(b, t) for b, t in ro.calls() if call_matches(t, r"ConcurrentReadMap::remove$|HashMap::remove$") and recv_field(ro, t["args"][0]) == "senders"]
     ins = [(b, t) for b, t in ro.calls() if call_matches(t, r"ConcurrentReadMap::insert$|HashMap::insert$") and recv_field(ro, t["args"][0]) == "senders"]
-    rep.exact("restart", "leftover_msgs.is_empty() tests", len(ie), 1)
+    rep.exact("restart", "emptiness tests of leftover_msgs (is_empty() / len() == 0 ...)", len(ie), 1)
     rep.exact("restart", "start_remote_state_actor calls", len(st), 1)
     rep.exact("restart", "senders.remove calls", len(rem), 1)
     rep.exact("restart", "senders.insert calls", len(ins), 1)
     if ie and st and rem and ins:
-        ts, _ = call_result_tests(ro, ie[0][0], family="bool")
+        ts = ets
         rep.ob("restart", requires(ro, rem[0][0], ts), site(ro, rem[0][0]), "the sender entry is dropped only when nothing was left over", skey(F, ro, "remove-requires-empty"))
         rep.ob("restart", requires_failure(ro, st[0][0], ts) and requires_failure(ro, ins[0][0], ts), site(ro, st[0][0]), "leftovers always lead to a restart", skey(F, ro, "restart-on-leftovers"))
         sb, stt = st[0]
@@ -93,28 +93,96 @@ def check(F, rep):
     rep.exact("send", "remove_or_restart_actor calls in send_to_actor", len(calls), 2)
     pj = [(b, t) for b, t in sa.calls() if call_matches(t, r"poll_fn::poll_fn$")]
     neq = [(b, t) for b, t in find_calls(sa, "core::cmp::PartialEq::ne", "core::cmp::PartialEq::eq")]
-    push = find_calls(sa, "alloc::vec::Vec::push")
     rep.exact("send", "id comparisons", len(neq), 1)
-    rep.exact("send", "pushes of the failed message", len(push), 1)
-    if len(calls) == 2 and neq and push:
+
+    class _Unsup(Exception):
+        pass
+
+    def kind_of(l):
+        cs = copy_sources(sa, l) if l is not None else set()
+        if cs and all(x[0] == "call" and x[1].endswith("Sender::send") for x in cs):
+            return "failed-message"
+        if cs and all(x[0] == "call" and x[1].endswith("poll_fn") for x in cs):
+            return "leftovers"
+        return "other:%s" % sorted(map(str, cs))[:2]
+
+    def seq_iter(l, d=0):
+        dc = def_call(sa, l) if l is not None else None
+        if l is not None and d <= 8 and str(sa.locals[l]).startswith("alloc::vec::Vec<") and (dc is None or not call_matches(dc[1], r"Iterator::|iter::")):
+            return seq_vec(l, None, d + 1)       # a Vec used directly as IntoIterator (chain's argument)
+        if dc is None or d > 8:
+            raise _Unsup("iterator _%s" % l)
+        t = dc[1]
+        if call_matches(t, r"Iterator::chain$"):
+            return seq_iter(op_base(t["args"][0]), d + 1) + seq_iter(op_base(t["args"][1]), d + 1)
+        if call_matches(t, r"IntoIterator::into_iter$|Vec::into_iter$"):
+            return seq_vec(op_base(t["args"][0]), None, d + 1)
+        if call_matches(t, r"iter::sources::once::once$|core::iter::once$"):
+            return [kind_of(op_base(t["args"][0]))]
+        if call_matches(t, r"Vec::drain$"):
+            return seq_vec(arg_ref_target(sa, t["args"][0]), None, d + 1)
+        raise _Unsup("iterator built by %s" % callee_names(t)[0])
+
+    def seq_vec(l, before_bb, d=0):
+        """element order of the Vec in local `l` (as seen at block `before_bb`)"""
+        if l is None or d > 8:
+            raise _Unsup("vector _%s" % l)
+        dc = def_call(sa, l)
+        if dc is not None and call_matches(dc[1], r"Iterator::collect$|FromIterator::from_iter$"):
+            base = seq_iter(op_base(dc[1]["args"][0]), d + 1)
+            chain = {l}
+        else:
+            k = kind_of(l)
+            if k != "leftovers":
+                raise _Unsup("vector from %s" % k)
+            base = ["leftovers"]
+            # the move chain between the joined task's payload and `l`
+            chain = {l}
+            work = [l]
+            while work:
+                x = work.pop()
+                for b_, i_, st in sa.stmts():
+                    if st["k"] == "a" and st["lhs"] == {"l": x} and st["rv"]["k"] == "use" and st["rv"]["o"]["k"] in ("copy", "move") and not st["rv"]["o"]["p"].get("p"):
+                        y = st["rv"]["o"]["p"]["l"]
+                        if y not in chain and str(sa.locals[y]) == str(sa.locals[l]):
+                            chain.add(y)
+                            work.append(y)
+        muts = []
+        for b_, t_ in sa.calls():
+            if t_["k"] == "call" and t_["args"] and call_matches(t_, r"^alloc::vec::Vec::") and arg_ref_target(sa, t_["args"][0]) in chain:
+                n = callee_names(t_)[0].rsplit("::", 1)[-1]
+                if n in ("len", "is_empty", "iter", "as_slice", "capacity", "first", "last", "get", "into_iter", "drain"):
+                    continue
+                if before_bb is not None and not sa.dominates(b_, before_bb):
+                    if before_bb in sa.reachable(b_):
+                        raise _Unsup("conditional %s on the message list" % n)
+                    continue
+                if n == "push":
+                    muts.append((b_, kind_of(op_base(t_["args"][1]))))
+                else:
+                    raise _Unsup("Vec::%s on the message list" % n)
+        muts.sort(key=lambda x: sum(1 for y in muts if sa.dominates(y[0], x[0])))
+        return base + [k for _, k in muts]
+
+    if len(calls) == 2 and neq:
         ts, _ = call_result_tests(sa, neq[0][0], family="bool")
         is_ne = is_call_to(neq[0][1], "core::cmp::PartialEq::ne")
         # the joined task's own id/leftovers: payload of the awaited join
         for b, t in calls:
             on_other = (requires(sa, b, ts) if is_ne else requires_failure(sa, b, ts))
             idsrc = copy_sources(sa, op_base(t["args"][1]))
-            msgsrc = sdu.closure(op_base(t["args"][2]))
             joined = all(x[0] == "call" and x[1].endswith("poll_fn") for x in idsrc) and bool(idsrc)
             rep.ob("provenance", joined, site(sa, b), "remove_or_restart_actor is given the id that the *joined task itself* reported (%s branch); sources %s" % ("other remote" if on_other else "requested remote", sorted(map(str, idsrc))),
                    skey(F, sa, "restart-joined-id:%s" % ("other" if on_other else "own")))
-            if not on_other:
-                rep.ob("provenance", push[0][0] in {x for x in sa.reachable(0) if sa.dominates(x, b)} and sa.dominates(push[0][0], b), site(sa, b), "for the requested remote the failed message is appended after the leftovers", skey(F, sa, "append-failed-msg"))
-        pb, pt = push[0]
-        vs = copy_sources(sa, arg_ref_target(sa, pt["args"][0]))
-        rep.ob("provenance", all(x[0] == "call" and x[1].endswith("poll_fn") for x in vs) and bool(vs), site(sa, pb), "the vector pushed onto is the joined task's leftovers (order: leftovers first); %s" % sorted(map(str, vs)), skey(F, sa, "push-onto-leftovers"))
-        ms = copy_sources(sa, op_base(pt["args"][1]))
-        snd = find_calls(sa, regex=r"mpsc::bounded::Sender::send$")
-        rep.ob("provenance", bool(ms) and bool(snd) and all(x[0] == "call" and x[1].endswith("Sender::send") for x in ms), site(sa, pb), "what is pushed is the message returned by the failed send; %s" % sorted(map(str, ms)), skey(F, sa, "push-failed-msg"))
+            try:
+                seq = seq_vec(op_base(t["args"][2]), b)
+                why = ""
+            except _Unsup as e:
+                seq, why = None, " (could not be extracted, fails closed: %s)" % e
+            if on_other:
+                rep.ob("provenance", seq == ["leftovers"], site(sa, b), "another remote's actor is restarted with exactly its own leftovers; handed over: %s%s" % (seq, why), skey(F, sa, "other-leftovers-only"))
+            else:
+                rep.ob("provenance", seq == ["leftovers", "failed-message"], site(sa, b), "for the requested remote the new actor's initial messages are the old actor's leftovers followed by the message whose send failed (request order kept); handed over: %s%s" % (seq, why), skey(F, sa, "append-failed-msg"))
     # ---- writers
     w = []
     for f in F.all_fns(crates=["iroh"], callee_regex=r"ConcurrentReadMap::(insert|remove|get_or_insert_with|clear|retain)$"):
